@@ -4,6 +4,7 @@ import (
 	"fmt"
 	"go/token"
 	"go/types"
+	"reflect"
 	"strings"
 
 	"golang.org/x/tools/go/ssa"
@@ -687,7 +688,13 @@ func init() {
 			src = *p
 		}
 		dst := args[1].(iface).v.(*value)
-		*dst = deepCopy(src)
+		// encoding/json decodes INTO the target: non-nil pointers, maps and slice backing arrays
+		// of a target that already holds data are reused, fields json does not see are left alone
+		if pt, ok := args[1].(iface).t.Underlying().(*types.Pointer); ok {
+			jsonMergeInto(dst, deepCopy(src), pt.Elem())
+		} else {
+			*dst = deepCopy(src)
+		}
 		return iface{}
 	}
 	h["maps.clone"] = func(fr *frame, args []value) value {
@@ -1129,6 +1136,127 @@ func deepCopy(v value) value {
 		return iface{t: v.t, v: deepCopy(v.v)}
 	}
 	return v
+}
+
+// jsonMergeInto mirrors how encoding/json.Unmarshal stores a decoded document (src, a private deep
+// copy of what Marshal saw, of static type t) into an existing value: struct fields one by one
+// (unexported and `json:"-"` fields untouched, `omitempty` zero values absent from the document),
+// a non-nil pointer keeps its pointee, a non-nil map is kept and gets the keys added (each element
+// decoded into a fresh zero value), a slice keeps its backing array while it is large enough and
+// merges into the stale elements, null (nil pointer/map/slice) resets the target.
+func jsonMergeInto(dst *value, src value, t types.Type) {
+	if n, ok := t.(*types.Named); ok {
+		ms := types.NewMethodSet(types.NewPointer(n))
+		for i := 0; i < ms.Len(); i++ {
+			if nm := ms.At(i).Obj().Name(); nm == "UnmarshalJSON" || nm == "UnmarshalText" {
+				*dst = src
+				return
+			}
+		}
+	}
+	switch u := t.Underlying().(type) {
+	case *types.Struct:
+		ds, ok1 := (*dst).(structure)
+		ss, ok2 := src.(structure)
+		if !ok1 || !ok2 || len(ds) != len(ss) || len(ss) != u.NumFields() {
+			*dst = src
+			return
+		}
+		for i := 0; i < u.NumFields(); i++ {
+			f := u.Field(i)
+			if !f.Exported() {
+				continue
+			}
+			tag := reflect.StructTag(u.Tag(i)).Get("json")
+			if tag == "-" {
+				continue
+			}
+			if strings.Contains(tag, ",omitempty") && jsonIsEmpty(ss[i]) {
+				continue
+			}
+			jsonMergeInto(&ds[i], ss[i], f.Type())
+		}
+	case *types.Pointer:
+		sp, ok := src.(*value)
+		if !ok || sp == nil {
+			*dst = src
+			return
+		}
+		dp, ok := (*dst).(*value)
+		if !ok || dp == nil {
+			nv := zero(u.Elem())
+			dp = &nv
+			*dst = dp
+		}
+		jsonMergeInto(dp, *sp, u.Elem())
+	case *types.Map:
+		sm, ok := src.(map[value]value)
+		if !ok || sm == nil {
+			*dst = src
+			return
+		}
+		dm, ok := (*dst).(map[value]value)
+		if !ok || dm == nil {
+			dm = map[value]value{}
+			*dst = dm
+		}
+		for k, v := range sm {
+			e := zero(u.Elem())
+			jsonMergeInto(&e, v, u.Elem())
+			dm[k] = e
+		}
+	case *types.Slice:
+		sl, ok := src.([]value)
+		if b, isb := u.Elem().Underlying().(*types.Basic); !ok || sl == nil || (isb && b.Kind() == types.Uint8) {
+			*dst = src
+			return
+		}
+		d, _ := (*dst).([]value)
+		for i := range sl {
+			if i >= cap(d) {
+				nd := make([]value, len(d), 2*cap(d)+1)
+				copy(nd, d)
+				d = nd
+			}
+			if i >= len(d) {
+				d = d[:i+1]
+				if d[i] == nil {
+					d[i] = zero(u.Elem())
+				}
+			}
+			jsonMergeInto(&d[i], sl[i], u.Elem())
+		}
+		if len(sl) == 0 {
+			d = []value{}
+		} else {
+			d = d[:len(sl)]
+		}
+		*dst = d
+	default:
+		*dst = src
+	}
+}
+
+func jsonIsEmpty(v value) bool {
+	switch x := v.(type) {
+	case bool:
+		return !x
+	case string:
+		return x == ""
+	case int:
+		return x == 0
+	case int64:
+		return x == 0
+	case []value:
+		return len(x) == 0
+	case map[value]value:
+		return len(x) == 0
+	case *value:
+		return x == nil
+	case iface:
+		return x.t == nil
+	}
+	return false
 }
 
 // deepEqSym is reflect.DeepEqual over interpreter values; symbolic leaves yield a Bool term.
